@@ -41,7 +41,8 @@ META["C01"] = dict(
         "Sessions of both roles over a fragmenting in-memory transport, a real client/server pair moves up to 1.5 MB over 1-5 "
         "streams with concurrent writers, chunk sizes 0..131072 and transport read sizes/capacities down to 1 byte; every read of "
         "every reader is validated by Trace_Mux.tla."
-        " Session 2: submissions on half-closed streams and under mid-frame transport stalls of 1 s..1 h; end-to-end echo integrity of position-coded data through the SOCKS5/HTTP front-ends, the real Client, TLS, the real server and a target (proto driver, Trace_Protocol echo clause).",
+        " Session 2: submissions on half-closed streams and under mid-frame transport stalls of 1 s..1 h; end-to-end echo integrity of position-coded data through the SOCKS5/HTTP front-ends, the real Client, TLS, the real server and a target (proto driver, Trace_Protocol echo clause)."
+        " Also the session's own keep-alive writes under transport stalls shorter and longer than the monitor's timeout (a torn frame on a session that stays open loses bytes of every open stream; scenarios shared with C11) and DropStream steps (the consumer gives up after partial reads).",
    technique="TLA+ spec (Mux.tla) + TLC MC of implementation-shaped model + TLC-simulated behaviours replayed into Session + TLC trace validation",
    design_ref="DESIGN.md 3/C01")
 META["C02"] = dict(
@@ -50,7 +51,8 @@ META["C02"] = dict(
         "FIN); it rejects any read whose bytes belong to another flow, any data or end-of-stream on a flow whose writer did not "
         "cause it, and stream tables that do not hold exactly the open ids after each quiescence point. MC_Mux proves OriginIsOwn "
         "for every arrival order at small scale; the deviation StrayRoutedToLast must be caught."
-        " Session 2: loss or failure on a stream after a frame / submission addressed to another id that is unknown, finished or half-closed is attributed here; client-layer pass (driver share, Trace_Share): a stream held open on a pooled session of the real Client while a sibling request of every fate is put on the same session.",
+        " Session 2: loss or failure on a stream after a frame / submission addressed to another id that is unknown, finished or half-closed is attributed here; client-layer pass (driver share, Trace_Share): a stream held open on a pooled session of the real Client while a sibling request of every fate is put on the same session."
+        " Also overlapping open_stream calls in the pair rig (an open must not return an id that is still open).",
    technique="TLA+ spec (Mux.tla incarnations) + TLC MC + scripted-peer replay of TLC behaviours + TLC trace validation",
    design_ref="DESIGN.md 3/C02")
 META["C11"] = dict(
@@ -61,7 +63,8 @@ META["C11"] = dict(
         "pinned code. Every complete 2-task schedule (23k, sampled in quick) and simulated 3-task schedules are replayed on a real "
         "client Session by parking tasks at cfg-guarded scheduling points; the bytes that reach the transport are parsed "
         "independently and Trace_WireOrder.tla decides at the wire only."
-        " Extension: Protocol.tla states the session protocol as one endpoint sees it (which frames may arrive / be submitted given everything before); TLC checks a reference client/server pair over FIFO wires against it (and that five deviations are rejected), and the rx/tx frame events of every real session in end-to-end runs through TLS (SOCKS5/HTTP front-ends, pooled sessions, keep-alive, scheme push) are validated by Trace_Protocol; clauses tagged with this property count toward the verdict, the others are reported as MODEL-DRIFT.",
+        " Extension: Protocol.tla states the session protocol as one endpoint sees it (which frames may arrive / be submitted given everything before); TLC checks a reference client/server pair over FIFO wires against it (and that five deviations are rejected), and the rx/tx frame events of every real session in end-to-end runs through TLS (SOCKS5/HTTP front-ends, pooled sessions, keep-alive, scheme push) are validated by Trace_Protocol; clauses tagged with this property count toward the verdict, the others are reported as MODEL-DRIFT."
+        " Also parallel scenarios on a multi-threaded runtime without hooks (1500 quick / 20000 thorough fresh sessions x 3 caller programs started together), judged per stream.",
    technique="TLA+ spec (WritePath.tla) + TLC exhaustive MC + every TLC schedule replayed via scheduling hooks + TLC trace validation",
    design_ref="DESIGN.md 3/C11")
 META["C09"] = dict(
@@ -74,7 +77,8 @@ META["C09"] = dict(
         "(scheduling hooks + fault-injecting transport + virtual time); after one virtual hour the harness reports what became of "
         "every operation and Trace_SessionLife.tla accepts only 'closed, shut down, reader ended, open failed, writer and closer "
         "returned, later write/open fail, nothing pending'."
-        " Session 2: a second, unscheduled writer queued behind the stalled one when the session is closed; application connections (reader, writer, half-closed) behind the SOCKS5/HTTP front-ends of a real Client whose TLS connection is cut must be ended (driver cut, Trace_Share).",
+        " Session 2: a second, unscheduled writer queued behind the stalled one when the session is closed; application connections (reader, writer, half-closed) behind the SOCKS5/HTTP front-ends of a real Client whose TLS connection is cut must be ended (driver cut, Trace_Share)."
+        " Also multi-threaded scenarios without hooks: writers, an opener and a reader on other threads while the session is ended by owner close / EOF / reset / Alert at a random moment.",
    technique="TLA+ spec (SessionLife.tla, liveness under fairness) + TLC MC + schedules and fault sweep replayed via hooks/SimPipe + TLC trace validation",
    design_ref="DESIGN.md 3/C09")
 META["C14"] = dict(
@@ -98,7 +102,8 @@ META["C10"] = dict(
         "Trace_Open.tla accepts a completion only if it is the request's first outcome, success only after the target listener "
         "accepted, a failure (not a timeout) when the server could not connect, 'connected' to the application only on success, "
         "and application bytes at the target exactly once after the connect."
-        " Extension: Protocol.tla states the session protocol as one endpoint sees it (which frames may arrive / be submitted given everything before); TLC checks a reference client/server pair over FIFO wires against it (and that five deviations are rejected), and the rx/tx frame events of every real session in end-to-end runs through TLS (SOCKS5/HTTP front-ends, pooled sessions, keep-alive, scheme push) are validated by Trace_Protocol; clauses tagged with this property count toward the verdict, the others are reported as MODEL-DRIFT.",
+        " Extension: Protocol.tla states the session protocol as one endpoint sees it (which frames may arrive / be submitted given everything before); TLC checks a reference client/server pair over FIFO wires against it (and that five deviations are rejected), and the rx/tx frame events of every real session in end-to-end runs through TLS (SOCKS5/HTTP front-ends, pooled sessions, keep-alive, scheme push) are validated by Trace_Protocol; clauses tagged with this property count toward the verdict, the others are reported as MODEL-DRIFT."
+        " Also a multi-threaded stress scenario: 4 tasks x 400 opens while the peer finishes streams as fast as they appear; every open must return (lock order between the open path and the FIN / close path).",
    technique="TLA+ spec (Open.tla) + TLC exhaustive MC + TLC-enumerated answer orders replayed + end-to-end loopback rig + TLC trace validation",
    design_ref="DESIGN.md 3/C10")
 META["C12"] = dict(
@@ -219,7 +224,8 @@ META["C08"] = dict(
         "order and bytes in flight varied; Trace_Close.tla requires the opposite endpoint to have received exactly what was sent, "
         "to observe end-of-stream, and the other direction to keep working."
         " Extension: Protocol.tla states the session protocol as one endpoint sees it (which frames may arrive / be submitted given everything before); TLC checks a reference client/server pair over FIFO wires against it (and that five deviations are rejected), and the rx/tx frame events of every real session in end-to-end runs through TLS (SOCKS5/HTTP front-ends, pooled sessions, keep-alive, scheme push) are validated by Trace_Protocol; clauses tagged with this property count toward the verdict, the others are reported as MODEL-DRIFT."
-        " Session 2: long half-closes (12 s, thorough 62 s, the other direction trickling all the time, both closing orders, both front-ends) and abortive closes (TCP reset) in the end-to-end rig.",
+        " Session 2: long half-closes (12 s, thorough 62 s, the other direction trickling all the time, both closing orders, both front-ends) and abortive closes (TCP reset) in the end-to-end rig."
+        " Also scripted clients of every protocol version (absent / 1 / 2 / 3..255 / garbage) against the real stream handler with a target that greets and closes: the target's bytes and its end-of-stream must be sent (Negotiation.tla clause, pass shared with C10).",
    technique="TLA+ spec (Mux.tla close rules, liveness under fairness) + TLC MC + replayed behaviours on in-memory rigs + end-to-end close rig + TLC trace validation (two validators)",
    design_ref="DESIGN.md 3/C08")
 META["C20"] = dict(
